@@ -97,7 +97,8 @@ where
             })
             .unwrap();
 
-        connection.session_expiry_interval >= elapsed
+        // The session is gone once the interval has elapsed.
+        connection.session_expiry_interval <= elapsed
     }
 
     fn reset_session(session: &mut Session) {
